@@ -26,6 +26,7 @@ import (
 const (
 	watchdog = 5 * time.Second               // DESIGN.md Appendix B: "bounded time" = 5 s
 	gateWait = 3 * time.Second               // a modelled copier step must arrive at its gate within this (limiter waits are <= 2 s)
+	paceIn   = 150 * time.Millisecond        // under the "slow" limit: time given to a copier to enter the pacing of a chunk
 	copyBuf  = int(constants.CopyBufferSize) // the bridge's copy buffer (32 KiB)
 )
 
@@ -109,7 +110,7 @@ type end struct {
 	rTaken   int
 	wTaken   int
 	armed    bool
-	glitch   bool
+	glitch   string // "" | "t0": the next Read returns (0, timeout) | "tn": the next Read with bytes returns (n, timeout)
 }
 
 func (e *end) cur() *fakeConn { return e.conns[len(e.conns)-1] }
@@ -144,16 +145,17 @@ func (w *world) markEnded(e, kind string) {
 // writes what the end shall receive. Chunk boundaries of the end's writes are preserved (a Read
 // never merges two writes), Read/Write park at a gate while the end is in gated mode.
 type fakeConn struct {
-	w      *world
-	e      *end
-	gen    int
-	in     [][]byte // written by the end, not yet read by the bridge
-	inEOF  bool     // the end closed this connection (after `in` is drained: EOF; writes fail)
-	failed bool     // the connection broke: reads and writes fail, `in` is gone
-	closed bool     // Close() was called on the server side (the bridge's doing): the end observes closure
-	rWait  int      // Read calls currently parked on this connection
-	rSeen  bool     // the bridge has called Read on this connection at least once
-	closeT time.Time
+	w        *world
+	e        *end
+	gen      int
+	in       [][]byte // written by the end, not yet read by the bridge
+	inEOF    bool     // the end closed this connection (after `in` is drained: EOF; writes fail)
+	failed   bool     // the connection broke: reads and writes fail, `in` is gone
+	withData bool     // the read that takes the last bytes returns them together with io.EOF / the error
+	closed   bool     // Close() was called on the server side (the bridge's doing): the end observes closure
+	rWait    int      // Read calls currently parked on this connection
+	rSeen    bool     // the bridge has called Read on this connection at least once
+	closeT   time.Time
 }
 
 type fakeAddr string
@@ -186,11 +188,11 @@ func (c *fakeConn) Read(p []byte) (int, error) {
 				w.cond.Broadcast()
 			}
 			switch {
-			case c == e.cur() && e.glitch:
-				e.glitch = false
+			case c == e.cur() && e.glitch == "t0":
+				e.glitch = ""
 				take()
 				return 0, timeoutErr{}
-			case c.failed:
+			case c.failed && !(c.withData && len(c.in) > 0 && len(p) > 0):
 				take()
 				return 0, errReset
 			case len(c.in) > 0 && len(p) > 0:
@@ -200,6 +202,18 @@ func (c *fakeConn) Read(p []byte) (int, error) {
 					c.in = c.in[1:]
 				} else {
 					c.in[0] = c.in[0][n:]
+				}
+				// bytes may come together with an error (io.Reader permits it): the broken
+				// connection's last buffer-full, the last bytes before end-of-stream, a poll timeout
+				switch {
+				case c.failed:
+					c.in = nil
+					return n, errReset
+				case c.inEOF && c.withData && len(c.in) == 0:
+					return n, io.EOF
+				case c == e.cur() && e.glitch == "tn":
+					e.glitch = ""
+					return n, timeoutErr{}
 				}
 				return n, nil
 			case c.inEOF:
@@ -318,6 +332,8 @@ func realLimit(lim string) int64 {
 		return 16384 // burst 32768 = copy buffer: every read fits
 	case "large":
 		return 256 << 20
+	case "slow":
+		return 1024 // burst 2048: one 32 KiB read is paced out in 16 pieces over 30 s
 	}
 	return 0
 }
@@ -343,6 +359,8 @@ type step struct {
 	E string `json:"e,omitempty"`
 	C string `json:"c,omitempty"`
 	D string `json:"d,omitempty"`
+	W string `json:"w,omitempty"` // close / error: "data" = the last bytes come together with EOF / the error
+	K string `json:"k,omitempty"` // glitch: "t0" | "tn"
 }
 
 type beh struct {
@@ -505,7 +523,7 @@ func (r *run) checkSpont() bool {
 	return true
 }
 
-func (r *run) closeEnd(e, kind string) {
+func (r *run) closeEnd(e, kind string, withData bool) {
 	w := r.w
 	if e == "T" {
 		r.targetConn()
@@ -514,10 +532,19 @@ func (r *run) closeEnd(e, kind string) {
 	en := w.ends[e]
 	c := en.cur()
 	w.markEnded(e, kind)
+	if withData {
+		w.ev[len(w.ev)-1]["w"] = "data"
+	}
+	c.withData = withData
 	if kind == "close" {
 		c.inEOF = true
+	} else if c.failed = true; withData && len(c.in) > 0 {
+		if len(c.in[0]) > copyBuf {
+			c.in[0] = c.in[0][:copyBuf]
+		}
+		c.in = c.in[:1]
 	} else {
-		c.failed, c.in = true, nil
+		c.in = nil
 	}
 	w.cond.Broadcast()
 	w.mu.Unlock()
@@ -639,6 +666,9 @@ func executeOnce(env *fw.Env, b *beh) *fw.Trace {
 			}
 			if st.A == "R" {
 				r.gate(map[string]string{"s2t": "S", "t2s": "T"}[st.D], true)
+				if b.Lim == "slow" {
+					time.Sleep(paceIn) // the copier is now paying for the chunk piece by piece
+				}
 			} else {
 				r.gate(map[string]string{"s2t": "T", "t2s": "S"}[st.D], false)
 			}
@@ -670,10 +700,13 @@ func executeOnce(env *fw.Env, b *beh) *fw.Trace {
 			if st.E == "T" {
 				r.targetConn()
 			}
-			if b.Mode == "free" && b.Drain && r.attached() {
+			if b.Mode == "free" && b.Drain && r.attached() && b.Lim != "slow" {
 				r.drain()
 			}
-			r.closeEnd(st.E, st.A)
+			if b.Mode == "free" && b.Lim == "slow" {
+				time.Sleep(paceIn) // let the copier get into the pacing of what it has read
+			}
+			r.closeEnd(st.E, st.A, st.W == "data")
 		case "arm":
 			w.mu.Lock()
 			w.ends[st.E].armed = true
@@ -681,8 +714,12 @@ func executeOnce(env *fw.Env, b *beh) *fw.Trace {
 			w.mu.Unlock()
 		case "glitch":
 			w.mu.Lock()
-			w.ends[st.E].glitch = true
-			w.log(fw.Event{"ev": "Env", "a": "glitch", "e": st.E})
+			k := st.K
+			if k == "" {
+				k = "t0"
+			}
+			w.ends[st.E].glitch = k
+			w.log(fw.Event{"ev": "Env", "a": "glitch", "e": st.E, "k": k})
 			w.cond.Broadcast()
 			w.mu.Unlock()
 		case "replace":
@@ -740,7 +777,7 @@ func executeOnce(env *fw.Env, b *beh) *fw.Trace {
 		ended = w.ended
 		w.mu.Unlock()
 		if ended == "none" && !r.checkSpont() {
-			r.closeEnd(b.FinE, b.FinK)
+			r.closeEnd(b.FinE, b.FinK, false)
 		}
 	}
 	// closure and forgetting are measured from the ending event (or the attach, or the moment a gated
